@@ -1,6 +1,64 @@
 import PgFdr.Json
+import PgFdr.Model.C11
 namespace PgFdr.Driver
 open Lean PgFdr
+
+/-- `[peptide, charge, expIdx, fraction, [num,den], "nan" | [num,den]]` -/
+def jprec (j : Json) : R C11.Prec := do
+  match j with
+  | .arr #[p, c, e, f, i, q] =>
+    let pep ← match q with
+      | .str "nan" => pure none
+      | _ => do pure (some (← jrat q))
+    pure { peptide := ← jstr p, charge := ← jint c, exp := ← jnat e, fraction := ← jint f,
+           intensity := ← jrat i, pep := pep }
+  | _ => .error s!"expected [peptide, charge, exp, fraction, intensity, pep], got {j.compress}"
+
+def jpair (j : Json) : R (Nat × Nat) := do
+  match j with
+  | .arr #[a, b] => pure (← jnat a, ← jnat b)
+  | _ => .error s!"expected [i, j], got {j.compress}"
+
+def ofPairEq (e : C11.PairEq) : Json :=
+  obj [("i", ofNat e.i), ("j", ofNat e.j), ("ratio", ofRat e.ratio), ("w", ofRat e.w), ("sratio", ofRat e.sratio)]
+
+/-- `{"op":"lfqA","n":…,"precs":[…],"cutoff":R,"minr":…,"stab":bool,"graph":null|[[i,j]…],
+     "minSamples":…, "solution": null | [R…]}` →
+    keys, columns, total, valid columns, pair equations, system (pairs, seen, zero columns, dense
+    matrix) and — if the exponentiated solution of the implementation is supplied — the LFQ
+    intensities after zeroing and `_scaleEqualSum` -/
+def handleLfqA (j : Json) : R Json := do
+  let n ← jnat (← jget j "n")
+  let precs ← jlist jprec (← jget j "precs")
+  let cutoff ← jrat (← jget j "cutoff")
+  let minr ← jnat (← jget j "minr")
+  let stab ← jbool (← jget j "stab")
+  let graph ← match jgetOpt j "graph" with
+    | none => pure none
+    | some g => do pure (some (← jlist jpair g))
+  let minSamples ← jnat (← jget j "minSamples")
+  if precs.any (fun p => decide (n ≤ p.exp)) then pure (ofErr "experiment_out_of_range") else
+  let o : C11.Opts := { n := n, cutoff := cutoff, minRatios := minr, stab := stab, graph := graph, minSamples := minSamples }
+  let a := C11.stageA o precs
+  let sol ← match jgetOpt j "solution" with
+    | none => pure none
+    | some s => do pure (some (← jlist jrat s))
+  let lfqJ : Json := match sol with
+    | none =>
+      if a.system.pairs.isEmpty then ofList ofRat ((List.range n).map (C11.lfq n a.system.zeroCols a.total (fun _ => (0 : Rat))))
+      else Json.null
+    | some v => ofList ofRat ((List.range n).map (C11.lfq n a.system.zeroCols a.total (fun s => v.getD s 0)))
+  pure (obj [
+    ("keys", ofList (fun k => Json.arr #[.str k.1, ofInt k.2]) a.keys),
+    ("cols", ofList (ofList ofRat) a.cols),
+    ("total", ofRat a.total),
+    ("validCols", ofList ofNat a.validCols),
+    ("eqs", ofList ofPairEq a.eqs),
+    ("seen", ofList ofNat a.system.seen),
+    ("zeroCols", ofList ofNat a.system.zeroCols),
+    ("matrix", ofList (ofList ofInt) (C11.denseMatrix n a.system)),
+    ("lfq", lfqJ)])
+
 /-- protocol handlers of property C11: (op name, handler) -/
-def handlersC11 : List (String × (Json → R Json)) := []
+def handlersC11 : List (String × (Json → R Json)) := [("lfqA", handleLfqA)]
 end PgFdr.Driver
